@@ -27,7 +27,7 @@ ASSUMPTIONS = [
     "a verdict whose deciding comparison is within 1e-9 of its threshold, or whose peak is tied, is not judged; at an exact band edge either adjacent column is accepted",
 ]
 NOT_REACHED = ["curves without a peak in the range (refused / undefined)", "grids above 400 points"]
-BUDGET = {"quick": dict(cases=3000, seconds=60, shards=4),
+BUDGET = {"quick": dict(cases=15000, seconds=60, shards=4),
           "thorough": dict(cases=1500000, seconds=600, shards=16)}
 REQUIRED = ["mon:reliability-verdicts", "mon:clarity-verdicts", "mon:more-windows-never-fail-ii",
             "mon:smaller-fn-std-never-fails-v", "mon:verbosity-levels-agree"]
